@@ -18,10 +18,13 @@ func TestMain(m *testing.M) { kit.Main(m) }
 //   - <name>|faithful : value equals the strict evaluation; every effect strict evaluation needs did happen
 //   - <name>|order    : order of effects respects data dependence (FlatMap: first computation, then continuation)
 //   - <name>|once     : within one evaluation no deferred thunk instance ran twice
-func faithful(t *testing.T, name, rule string, ntMode int, mk func(g *gen) *node) {
+//   - <name>|effects-once : within ONE evaluation of a program without sharing no user function
+//     (mapping function / continuation) ran twice — strict evaluation of the same program
+//     runs each exactly once (repeated requests are a different matter: see once_test.go)
+func faithful(t *testing.T, name, rule string, ntMode int, weight float64, mk func(g *gen) *node) {
 	t.Helper()
 	sig := "C16|" + name
-	kit.Check(t, name+"/faithful", rule, kit.Opt{}, func(rt *rapid.T, rec *kit.Rec) {
+	kit.Check(t, name+"/faithful", rule, kit.Opt{Weight: weight}, func(rt *rapid.T, rec *kit.Rec) {
 		g := &gen{rt: rt}
 		n := mk(g)
 		how := rapid.IntRange(0, 2).Draw(rt, "runner")
@@ -66,12 +69,39 @@ func faithful(t *testing.T, name, rule string, ntMode int, mk func(g *gen) *node
 		if msg, bad := c.overrun(); bad {
 			rec.Failf(rt, sig+"|once", "%s during a single %s of %s", msg, runnerName[how], n)
 		}
-		if reflect.DeepEqual(tr, w.strict) {
+		seen := map[int]int{}
+		for _, id := range tr {
+			seen[id]++
+			if seen[id] == 2 {
+				rec.Failf(rt, sig+"|effects-once", "user function of site #%d ran twice during ONE %s of a program in which every function occurs once (strict evaluation runs it once) in %s (library trace %v, strict trace %v)", id, runnerName[how], n, tr, w.strict)
+			}
+		}
+		if (len(tr) == 0 && len(w.strict) == 0) || reflect.DeepEqual(tr, w.strict) {
 			rec.Label("trace=strict-left-to-right")
 		} else {
 			rec.Label("trace≠strict-left-to-right(not demanded)")
 		}
 	})
+}
+
+// drawSize draws 1..max, biased towards larger programs than rapid's default
+// (maximum of three draws; still shrinks towards 1).
+func drawSize(rt *rapid.T, max int) int {
+	s := 1
+	for i := 0; i < 3; i++ {
+		if x := rapid.IntRange(1, max).Draw(rt, "size"); x > s {
+			s = x
+		}
+	}
+	return s
+}
+
+// pickF is kit.Pick for weights.
+func pickF(q, th float64) float64 {
+	if kit.Thorough() {
+		return th
+	}
+	return q
 }
 
 const (
@@ -129,7 +159,7 @@ func TestFaithful(t *testing.T) {
 		default:
 			rule += "every case counts (value and variable passing only); distinct by printed program"
 		}
-		faithful(t, s.name, rule, s.nt, func(g *gen) *node {
+		faithful(t, s.name, rule, s.nt, 1, func(g *gen) *node {
 			b := rapid.IntRange(1, 7).Draw(g.rt, "size")
 			n := g.rooted(s.root, b, 0, 0)
 			if s.method >= 0 {
@@ -151,12 +181,12 @@ func TestFaithful(t *testing.T) {
 		}
 	}
 	faithful(t, "chain-left", fmt.Sprintf("left-nested chain ((e.FlatMap k1).FlatMap k2)... of 1..%d continuations (Done/Call/TailCall/TailCall1/Func1/Done.Map bodies, method and function form mixed) over a small head program; oracle: strict evaluation; non-trivial iff a FlatMap is applied to a computation containing a deferred thunk; distinct by printed program", kit.Pick(40, 400)),
-		ntFM, chain(kChainL))
+		ntFM, pickF(1, 0.08), chain(kChainL))
 	faithful(t, "chain-right", fmt.Sprintf("right-nested chain e.FlatMap(x => k1(x).FlatMap(y => k2(y).FlatMap(...))) of 1..%d continuations over a small head program; oracle: strict evaluation; non-trivial iff a FlatMap is applied to a computation containing a deferred thunk; distinct by printed program", kit.Pick(40, 400)),
-		ntFM, chain(kChainR))
+		ntFM, pickF(1, 0.3), chain(kChainR))
 
 	faithful(t, "tree", fmt.Sprintf("composite program tree of 1..%d nodes over Done, Call, Func1..3, TailCall, TailCall1..3 (parameters become variables of the sub-program), Map, FlatMap (table continuation value -> sub-program, binds the value), Map2 (non-commutative), left- and right-nested FlatMap chains; oracle: strict evaluation; non-trivial iff the first computation of an evaluated FlatMap contains a deferred thunk; distinct by printed program", kit.Pick(40, 400)),
-		ntFM, func(g *gen) *node {
-			return g.tree(rapid.IntRange(1, kit.Pick(40, 400)).Draw(g.rt, "size"), 0, 0)
+		ntFM, 1, func(g *gen) *node {
+			return g.tree(drawSize(g.rt, kit.Pick(40, 400)), 0, 0)
 		})
 }
